@@ -21,8 +21,8 @@ theorem Same.trans {a b c : Cfg} (h1 : Same a b) (h2 : Same b c) : Same a c :=
 theorem Inv.same {c c' : Cfg} (h : Inv c) (s : Same c c') : Inv c' :=
   ⟨by rw [s.2.1]; exact h.chain, by rw [s.2.1, s.1]; exact h.head, by rw [s.2.2, s.1]; exact h.closedTerm⟩
 
-theorem inv_init (name : String) : Inv (init name) := by
-  unfold init; split <;> exact ⟨by decide, by rfl, by simp⟩
+theorem inv_init (nf : Nat) : Inv (init nf) := by
+  exact ⟨by simp [init, edgesOk], by rfl, by simp [init]⟩
 
 /-! frame lemmas -/
 theorem setActionStatus_same (c : Cfg) (i s) : Same c (setActionStatus c i s) := by
@@ -434,6 +434,9 @@ theorem tickCb_inv (c : Cfg) (cb) (h : Inv c) : Inv (tickCb c cb) := by
     split
     · exact awaitableDone_inv _ _ h1
     · exact (kill_inv _ h1).same ⟨rfl, rfl, rfl⟩
+    · split
+      · exact fail_inv _ _ h1
+      · exact h1
   · exact h
 
 /-- every event preserves the lifecycle invariant -/
@@ -448,6 +451,7 @@ theorem step_inv (P : Prog) (c : Cfg) (ev : Ev) (h : Inv c) : Inv (step P c ev).
   · exact fail_inv c _ h
   · exact cancelFut_inv c h
   · exact complete_inv c _ _ h
+  · exact h.same ⟨rfl, rfl, rfl⟩
 
 theorem run_inv (P : Prog) (c0 : Cfg) (evs : List Ev) (h : Inv c0) : Inv (run P c0 evs) := by
   induction evs generalizing c0 with
@@ -457,12 +461,11 @@ theorem run_inv (P : Prog) (c0 : Cfg) (evs : List Ev) (h : Inv c0) : Inv (run P 
 /-- **C01 (model level), first half**: for every user program, every initial program shape and every
 history of ticks and control requests, the entered-state log is a path of the lifecycle graph that
 starts in CREATED and ends at the current state. -/
-theorem C01_edges_legal (P : Prog) (name : String) (evs : List Ev) :
-    edgesOk (run P (init name) evs).entered = true ∧
-    (run P (init name) evs).entered.head? = some (run P (init name) evs).st.label :=
-  let h := run_inv P (init name) evs (inv_init name)
+theorem C01_edges_legal (P : Prog) (nf : Nat) (evs : List Ev) :
+    edgesOk (run P (init nf) evs).entered = true ∧
+    (run P (init nf) evs).entered.head? = some (run P (init nf) evs).st.label :=
+  let h := run_inv P (init nf) evs (inv_init nf)
   ⟨h.chain, h.head⟩
 
 end PMF
 
-#print axioms PMF.C01_edges_legal
